@@ -45,6 +45,7 @@ type fakePeer struct {
 
 	version int
 	everStalled bool
+	c11cursor   int
 	disturbed   bool // its connection or the node's outbound stream to it was ever torn down
 	recv    []wireObs
 	rbuf    []byte
